@@ -25,6 +25,10 @@ pub struct Sink {
     /// instance id -> (buf addr, words addr, text addr)
     pub bases: Mutex<BTreeMap<u64, [usize; 3]>>,
     pub into_calls: AtomicU64,
+    /// what an implementor pulled out of an iterator argument, None included (side channel for the caller's model)
+    pub seen: Mutex<Vec<Option<u64>>>,
+    /// model violations noticed inside a call (by the implementor or by the caller's post-check)
+    pub model: Mutex<Vec<String>>,
 }
 
 impl Sink {
@@ -246,6 +250,9 @@ pub fn rand_string(r: &mut Rng) -> String {
 
 /// Compare the two sinks after a step/history.  Returns a description of the first difference.
 pub fn diff_sinks(o: &Sink, r: &Sink) -> Option<(String, String)> {
+    if let Some(n) = o.model.lock().unwrap().first() {
+        return Some(("callee-model".into(), n.clone()));
+    }
     let lo = o.log.lock().unwrap();
     let lr = r.log.lock().unwrap();
     for (i, (a, b)) in lo.iter().zip(lr.iter()).enumerate() {
